@@ -46,7 +46,37 @@ def worker(args, hashseed, timeout=1200):
     return out
 
 
+def call_order_extract_default(ctx):
+    """extract_default is a function of its arguments: the same call gives the same result whatever calls
+    (with whatever flags) ran before it in the process."""
+    from doctrans.defaults_utils import extract_default
+
+    victims = ["learning rate. Defaults to 5. Must be positive", "the zq_a setting. Defaults to 0.5. Used by the trainer",
+               "shape of it. Defaults to (1, 2). Then more prose", "name. Defaults to zq_val. Trailing words here"]
+    polluters = ["shape. Defaults to (1, 2)", "table. Defaults to {'a': [1, 2]}", "items. Defaults to [1, (2, 3)", "plain. Defaults to 7"]
+    flags = [dict(rstrip_default=r, emit_default_doc=e) for r in (True, False) for e in (True, False)]
+    fresh = {(v, i): repr(extract_default(v, **f)) for v in victims for i, f in enumerate(flags)}
+    for pl in polluters:
+        for pf in flags:
+            try:
+                extract_default(pl, **pf)
+            except Exception:
+                pass
+            for v in victims:
+                for i, f in enumerate(flags):
+                    ctx.case(("call_order", pl, str(pf), v, i), nontrivial=True)
+                    ctx.event("call_order_pairs_compared")
+                    got = repr(extract_default(v, **f))
+                    if got != fresh[(v, i)]:
+                        ctx.report({"op": "call_order", "field": "nondeterminism", "tag": "depends_on_earlier_calls", "conversion": "extract_default",
+                                    "expected": fresh[(v, i)][:200], "observed": got[:200], "earlier_call": pl, "earlier_flags": str(pf)},
+                                   {"worker": "call_order_extract_default", "earlier": pl, "earlier_flags": pf, "line": v, "flags": f})
+                        return
+
+
 def run(ctx):
+    ctx.require("call_order_pairs_compared", 100)
+    call_order_extract_default(ctx)
     ctx.require("hash_seed_processes", 5)
     ctx.require("digests_compared_across_hash_seeds", 100)
     ctx.require("permutation_digests_compared", 100)
